@@ -12,6 +12,9 @@
 //   shapes   whole documents (rect/circle/ellipse/line/polyline/polygon/path,
 //            viewBox / preserveAspectRatio) -> svg.Parse + Draw on the recorder
 //   use      <use> reference graphs with cycles and dangling ids -> Parse + Draw
+//   uses     several <use> of the same <svg> / <symbol> / <g> / shape with differing
+//            x y width height stroke attributes -> Parse + Draw, Transform and
+//            SetLineWidth calls recorded too
 //   refs     gradient/pattern/marker/clipPath/mask reference graphs -> Parse + Draw
 // Documents run in worker subprocesses (a stack overflow kills the process).
 package main
@@ -747,6 +750,7 @@ func mutate(r *vlib.Rng, d string) string {
 type docJob struct {
 	Svg  string
 	W, H fl
+	Full bool // also record Transform (after the root's own two) and SetLineWidth calls
 }
 
 type docOut struct {
@@ -771,7 +775,7 @@ func runDoc(in string) string {
 		rec := render.NewRecorder()
 		pg := rec.AddPage(0, 0, job.W, job.H)
 		img.Draw(pg, job.W, job.H, nil)
-		nt := 0
+		nt, nAll := 0, 0
 		for _, e := range rec.Events {
 			if e.Op == "Transform" && e.Depth == 1 {
 				nt++
@@ -780,6 +784,13 @@ func runDoc(in string) string {
 				}
 			}
 			k, ok := opKinds[e.Op]
+			if job.Full && e.Op == "Transform" && len(e.Args) == 6 {
+				nAll++
+				k, ok = 5, nAll > 2
+			}
+			if job.Full && e.Op == "SetLineWidth" {
+				k, ok = 6, true
+			}
 			if !ok {
 				continue
 			}
@@ -1100,6 +1111,224 @@ func genUseDoc(r *vlib.Rng) pending {
 		coqIn: vlib.List(defs) + " " + vlib.List(items), desc: map[string]interface{}{"svg": xml.String()}, tags: tagList(tags)}
 }
 
+// a basic shape with plain-number attributes (no arcs in path data): the
+// element text without the closing "/>" and the Coq `shape`
+func genPlainShape(r *vlib.Rng) (string, string) {
+	switch r.Intn(7) {
+	case 0, 1:
+		xs, x := attrNum(r, false)
+		ys, y := attrNum(r, false)
+		ws, w := attrNum(r, true)
+		hs, h := attrNum(r, true)
+		el := fmt.Sprintf(`<rect x="%s" y="%s" width="%s" height="%s"`, xs, ys, ws, hs)
+		rxq := "NoQ"
+		if r.Chance(1, 4) {
+			s, v := attrNum(r, true)
+			el += fmt.Sprintf(` rx="%s"`, s)
+			rxq = "(SomeQ " + vlib.Q32(v) + ")"
+		}
+		return el, fmt.Sprintf("ShRect %s %s %s %s %s NoQ", vlib.Q32(x), vlib.Q32(y), vlib.Q32(w), vlib.Q32(h), rxq)
+	case 2:
+		cxs, cx := attrNum(r, false)
+		cys, cy := attrNum(r, false)
+		rs, rr := attrNum(r, true)
+		return fmt.Sprintf(`<circle cx="%s" cy="%s" r="%s"`, cxs, cys, rs), fmt.Sprintf("ShCircle %s %s %s", vlib.Q32(cx), vlib.Q32(cy), vlib.Q32(rr))
+	case 3, 4:
+		x1s, x1 := attrNum(r, false)
+		y1s, y1 := attrNum(r, false)
+		x2s, x2 := attrNum(r, false)
+		y2s, y2 := attrNum(r, false)
+		return fmt.Sprintf(`<line x1="%s" y1="%s" x2="%s" y2="%s"`, x1s, y1s, x2s, y2s),
+			fmt.Sprintf("ShLine %s %s %s %s", vlib.Q32(x1), vlib.Q32(y1), vlib.Q32(x2), vlib.Q32(y2))
+	case 5:
+		closed := r.Bool()
+		var ns []num
+		for j := 2 * r.Range(1, 4); j > 0; j-- {
+			ns = append(ns, genNum(r, false))
+		}
+		pts := spellNums(r, ns)
+		tag := "polyline"
+		if closed {
+			tag = "polygon"
+		}
+		return fmt.Sprintf(`<%s points="%s"`, tag, pts), fmt.Sprintf("ShPoly %s %s", vlib.Bool(closed), coqBytes(pts))
+	default:
+		d := spellPath(r, genPath(r, false))
+		return fmt.Sprintf(`<path d="%s"`, d), "ShPath " + coqBytes(d)
+	}
+}
+
+// documents with several <use> of the same definitions: nested <svg> /
+// <symbol> (own x y width height, viewBox, preserveAspectRatio, overflow),
+// <g>, basic shapes (own stroke / stroke-width); every <use> with its own x y,
+// with or without width + height, with or without stroke / stroke-width.
+// Expected: every instance is drawn from the definition as written
+// (Geom/UseGraph.v draw_uses).
+func genUsesDoc(r *vlib.Rng) pending {
+	tags := map[string]bool{}
+	k := r.Range(1, 3)
+	var xml strings.Builder
+	xml.WriteString(`<svg xmlns="http://www.w3.org/2000/svg" xmlns:xlink="http://www.w3.org/1999/xlink" viewBox="0 0 200 200"><defs>`)
+	var defs []string
+	isView := make([]bool, k+1)
+	content := func() (string, string) {
+		var x strings.Builder
+		var items []string
+		for j := r.Range(0, 2); j > 0; j-- {
+			el, c := genPlainShape(r)
+			x.WriteString(el + "/>")
+			items = append(items, c)
+		}
+		return x.String(), vlib.List(items)
+	}
+	num0 := func(nonneg bool) (string, fl) { // small numbers, often integers
+		if r.Bool() {
+			v := r.Range(0, 60)
+			if !nonneg && r.Chance(1, 4) {
+				v = -v
+			}
+			return strconv.Itoa(v), fl(v)
+		}
+		return attrNum(r, nonneg)
+	}
+	for id := 1; id <= k; id++ {
+		switch kind := r.Intn(6); {
+		case kind < 3: // viewport element
+			isView[id] = true
+			tag := "svg"
+			if r.Bool() {
+				tag = "symbol"
+			}
+			tags["target-"+tag] = true
+			el := fmt.Sprintf(`<%s id="t%d"`, tag, id)
+			var x, y fl
+			if r.Chance(1, 3) {
+				var xs, ys string
+				xs, x = num0(false)
+				ys, y = num0(false)
+				el += fmt.Sprintf(` x="%s" y="%s"`, xs, ys)
+			}
+			ws, w := num0(true)
+			hs, h := num0(true)
+			el += fmt.Sprintf(` width="%s" height="%s"`, ws, hs)
+			vb := "NoVb"
+			if r.Chance(3, 4) {
+				vxs, vx := num0(false)
+				vys, vy := num0(false)
+				vws, vw := num0(true)
+				vhs, vh := num0(true)
+				el += fmt.Sprintf(` viewBox="%s %s %s %s"`, vxs, vys, vws, vhs)
+				vb = fmt.Sprintf("(SomeVb %s %s %s %s)", vlib.Q32(vx), vlib.Q32(vy), vlib.Q32(vw), vlib.Q32(vh))
+				tags["target-viewBox"] = true
+			}
+			xi, yi, none, slice := 1, 1, false, false
+			if r.Bool() {
+				pos := []string{"Min", "Mid", "Max"}
+				xi, yi = r.Intn(3), r.Intn(3)
+				none, slice = r.Chance(1, 5), r.Bool()
+				par := "x" + pos[xi] + "Y" + pos[yi]
+				if none {
+					par, xi, yi = "none", 0, 0
+				}
+				if slice {
+					par += " slice"
+				}
+				el += fmt.Sprintf(` preserveAspectRatio="%s"`, par)
+			}
+			clip := true
+			if r.Chance(1, 3) {
+				ov := vlib.Pick(r, []string{"hidden", "visible", "auto"})
+				el += fmt.Sprintf(` overflow="%s"`, ov)
+				clip = ov == "hidden"
+			}
+			cx, cc := content()
+			xml.WriteString(el + ">" + cx + "</" + tag + ">")
+			al := []string{"AMin", "AMid", "AMax"}
+			defs = append(defs, fmt.Sprintf("UDef %d (TView %s %s %s %s %s {| xpos := %s; ypos := %s; par_none := %s; par_slice := %s |} %s %s)", id,
+				vlib.Q32(x), vlib.Q32(y), vlib.Q32(w), vlib.Q32(h), vb, al[xi], al[yi], vlib.Bool(none), vlib.Bool(slice), vlib.Bool(clip), cc))
+		case kind < 4:
+			tags["target-g"] = true
+			cx, cc := content()
+			xml.WriteString(fmt.Sprintf(`<g id="t%d">%s</g>`, id, cx))
+			defs = append(defs, fmt.Sprintf("UDef %d (TGroup %s)", id, cc))
+		default:
+			tags["target-shape"] = true
+			el, c := genPlainShape(r)
+			el = strings.Replace(el, " ", fmt.Sprintf(` id="t%d" `, id), 1)
+			stroke, sw := r.Chance(1, 2), "NoQ"
+			if stroke {
+				el += ` stroke="black"`
+			}
+			if r.Chance(1, 3) {
+				v := r.Range(0, 9)
+				el += fmt.Sprintf(` stroke-width="%d"`, v)
+				sw = fmt.Sprintf("(SomeQ %d)", v)
+			}
+			xml.WriteString(el + "/>")
+			defs = append(defs, fmt.Sprintf("UDef %d (TShape %s %s (%s))", id, vlib.Bool(stroke), sw, c))
+		}
+	}
+	xml.WriteString("</defs>")
+	var uses, usesXML []string
+	n := r.Range(2, 5)
+	main := r.Range(1, k)
+	seen := map[int]int{}
+	for i := 0; i < n; i++ {
+		id := main
+		if r.Chance(1, 3) {
+			id = r.Range(1, k)
+		}
+		if r.Chance(1, 14) {
+			id = k + 1
+			tags["dangling"] = true
+		}
+		attr := "href"
+		if r.Chance(1, 5) {
+			attr = "xlink:href"
+		}
+		el := fmt.Sprintf(`<use %s="#t%d"`, attr, id)
+		var x, y fl
+		if r.Chance(2, 3) {
+			var xs, ys string
+			xs, x = num0(false)
+			ys, y = num0(false)
+			el += fmt.Sprintf(` x="%s" y="%s"`, xs, ys)
+		}
+		size := "NoSize"
+		if r.Bool() {
+			ws, w := num0(true)
+			hs, h := num0(true)
+			el += fmt.Sprintf(` width="%s" height="%s"`, ws, hs)
+			size = fmt.Sprintf("(Size %s %s)", vlib.Q32(w), vlib.Q32(h))
+			if id <= k && isView[id] {
+				tags["use-sized-viewport"] = true
+			}
+		}
+		stroke, sw := r.Chance(1, 4), "NoQ"
+		if stroke {
+			el += ` stroke="black"`
+			tags["use-stroke"] = true
+		}
+		if r.Chance(1, 3) {
+			v := r.Range(0, 9)
+			el += fmt.Sprintf(` stroke-width="%d"`, v)
+			sw = fmt.Sprintf("(SomeQ %d)", v)
+			tags["use-stroke-width"] = true
+		}
+		el += "/>"
+		seen[id]++
+		if seen[id] == 2 {
+			tags["same-id-twice"] = true
+		}
+		xml.WriteString(el)
+		usesXML = append(usesXML, el)
+		uses = append(uses, fmt.Sprintf("UseI %d %s %s %s %s %s", id, vlib.Q32(x), vlib.Q32(y), size, vlib.Bool(stroke), sw))
+	}
+	xml.WriteString("</svg>")
+	return pending{kind: "uses", job: docJob{Svg: xml.String(), W: 200, H: 200, Full: true},
+		coqIn: vlib.List(defs) + " " + vlib.List(uses), desc: map[string]interface{}{"svg": xml.String(), "uses": usesXML}, tags: tagList(tags)}
+}
+
 // reference graphs among paint servers, markers, clip paths and masks
 func genRefsDoc(r *vlib.Rng) pending {
 	k := r.Range(1, 5)
@@ -1263,11 +1492,13 @@ func main() {
 	nDocs := *n / 5
 	for i := 0; i < nDocs; i++ {
 		r := rng.Fork()
-		switch k := r.Intn(10); {
+		switch k := r.Intn(11); {
 		case k < 5:
 			docs = append(docs, genShapesDoc(r))
-		case k < 8:
+		case k < 7:
 			docs = append(docs, genUseDoc(r))
+		case k < 9:
+			docs = append(docs, genUsesDoc(r))
 		default:
 			docs = append(docs, genRefsDoc(r))
 		}
@@ -1302,6 +1533,8 @@ func main() {
 			coq = fmt.Sprintf("CShapes %s %s", d.coqIn, coqDres(status, o))
 		case "use":
 			coq = fmt.Sprintf("CUse %s %s", d.coqIn, coqDres(status, o))
+		case "uses":
+			coq = fmt.Sprintf("CUses %s %s", d.coqIn, coqDres(status, o))
 		default:
 			coq = fmt.Sprintf("CRefs %s", coqDres(status, docOut{}))
 		}
